@@ -16,6 +16,13 @@ const c05Yang = `module m {
 	typedef base { type int32 { range "0..100"; } }
 	typedef mid { type base { range "10..50"; } }
 	typedef str { type string { length "2..4"; pattern "a.*"; } }
+	typedef t1 { type int32 { range "10..100"; } }
+	typedef t2 { type t1 { range "min..50"; } }
+	typedef s1 { type string { length "2..6"; } }
+	typedef s2 { type s1 { length "min..4"; } }
+	leaf c3 { type t2 { range "min..20"; } }
+	leaf c3x { type t2 { range "15..max"; } }
+	leaf sl3 { type s2 { length "min..3"; } }
 	leaf a { type base { range "10..20"; } }
 	leaf a3 { type mid { range "15..40"; } }
 	leaf b { type int32 { range "min..5 | 10..max"; } }
@@ -82,6 +89,22 @@ func H_C05_set_typedef_chain3(s any) {
 	vpAssert(!p, "no crash")
 	want := vpAnd(x >= 15, x <= 40)
 	vpAssertK("C05-levels-ored", vpAnd(vpAnd(x >= 0, x <= 100), !want), ok == want, "three levels: accepted iff inside every level")
+	vpCover("reached")
+}
+
+// three levels where the narrower levels only say min/max: the real bound sits in the outermost typedef
+//vp:setup S_c05
+func H_C05_set_typedef_chain_minmax(s any) {
+	m := s.(*meta.Module)
+	x := vpInt32()
+	ok, p, _, _ := c05Set(m, "c3", val.Int32(x))
+	vpAssert(!p, "no crash")
+	vpAssert(ok == vpAnd(x >= 10, x <= 20), "10..100 / min..50 / min..20 accepts exactly 10..20")
+	ok2, _, _, _ := c05Set(m, "c3x", val.Int32(x))
+	vpAssert(ok2 == vpAnd(x >= 15, x <= 50), "10..100 / min..50 / 15..max accepts exactly 15..50")
+	str := vpString(7)
+	ok3, _, _, _ := c05Set(m, "sl3", val.String(str))
+	vpAssert(ok3 == (len(str) >= 2 && len(str) <= 3), "length 2..6 / min..4 / min..3 accepts exactly 2..3")
 	vpCover("reached")
 }
 
